@@ -61,8 +61,9 @@ class C04(Check):
     rule = ('case = one (actual, reference) pair of line sequences over the '
             '9-line alphabet (length <=2 quick, <=3 thorough; single lines '
             'over a 32-line alphabet), swept over all 512 option points; '
-            'entry-point cases = pairs over a 5-line alphabet x 64 (quick) / '
-            '512 (thorough) option points x {string-vs-file, file-vs-file, '
+            'entry-point cases = pairs over a 5-line alphabet x 64 option '
+            'points (thorough: a second 5-line alphabet, and all 512 points) '
+            'x {string-vs-file, file-vs-file, '
             'list-of-files in both orders}, and file forms (final newline '
             'present/absent/doubled, CRLF, CR, non-ASCII, empty, missing '
             'reference).  Non-trivial = the model gives both must-pass and '
@@ -93,7 +94,9 @@ class C04(Check):
              ('forms', 'file forms: final newline, CRLF, CR, empty, missing '
                        'reference')]
         if tier == 'thorough':
-            L += [('seq3-short', 'length 3 against length <= 1'),
+            L += [('entry-full', 'public entry points under all 512 option '
+                                 'points'),
+                  ('seq3-short', 'length 3 against length <= 1'),
                   ('seq3-2', 'length 3 against length 2'),
                   ('seq3-3', 'length 3 against length 3')]
         return L
@@ -113,13 +116,17 @@ class C04(Check):
                 for e in TA.sequences(TA.LAMBDA, 2):
                     if a != e:
                         yield {'k': 'sweep', 'a': a, 'e': e}
-        elif layer == 'entry':
-            for alpha in (TA.LAMBDA_R, TA.LAMBDA_R2):
+        elif layer in ('entry', 'entry-full'):
+            alphas = [TA.LAMBDA_R]
+            if tier == 'thorough' and layer == 'entry':
+                alphas.append(TA.LAMBDA_R2)
+            for alpha in alphas:
                 for a in TA.sequences(alpha, 2):
                     for e in TA.sequences(alpha, 2):
                         yield {'k': 'entry', 'a': a, 'e': e,
                                'fa': ['\n', 1], 'fe': ['\n', 1],
-                               'pts': 'full' if tier == 'thorough' else 'q'}
+                               'pts': 'full' if layer == 'entry-full'
+                               else 'q'}
         elif layer == 'forms':
             alpha = FORM_ALPHA_T if tier == 'thorough' else FORM_ALPHA_Q
             for a in TA.sequences(alpha, 2):
